@@ -155,11 +155,18 @@ def s_module_naming(ctx):
         m = SObj(_module.Module, "module")
         I.call(I.getattr(m, "__init__"), [name])
         return m
-    root = mk_module(SStr(r))
+    root_named = ctx.choose(2, "root module is unnamed") == 0
+    root = mk_module(SStr(r) if root_named else None)
     child = mk_module(SStr(dname) if explicit_child else None)
     param = SObj(_parameter.Parameter, "param")
     param.fields.update(name=(SStr(qname) if explicit_param else None), const_value=Opaque("data"), _realized=False)
     I.call(I.getattr(child, "__setattr__"), [SStr(p), param])
+    # the root may own a parameter under the SAME attribute name as the child's (weight / fc.weight)
+    root_param = None
+    if not explicit_param and ctx.choose(2, "root owns a parameter with the same attribute name") == 1:
+        root_param = SObj(_parameter.Parameter, "root_param")
+        root_param.fields.update(name=None, const_value=Opaque("root_data"), _realized=False)
+        I.call(I.getattr(root, "__setattr__"), [SStr(p), root_param])
     I.call(I.getattr(root, "__setattr__"), [SStr(a), child])
     forward_raises = ctx.choose(2, "child forward raises") == 1
     # the child is called either directly, or from the trace function of a control-flow body built by the real
@@ -211,18 +218,26 @@ def s_module_naming(ctx):
     ctx.check("C18.nn.module_call.scope_stack_balanced" + (".when_forward_raises" if forward_raises else ""),
               gb.fields["_scope_stack"] == [], "C18: Module.__call__ pops the scope also on exception")
     inits = graph.fields["initializers"]
-    ok = len(inits) == 1 and list(inits.values())[0] is param and (not in_subgraph or (len(subgraphs) == 1 and not subgraphs[0].fields["initializers"]))
-    ctx.check("C18.nn.parameter.realized_exactly_once_in_the_root_graph", ok, CL_NAME)
+    n_params = 2 if root_param is not None else 1
+    ok = len(inits) == n_params and sum(1 for v in inits.values() if v is param) == 1 and \
+        (root_param is None or sum(1 for v in inits.values() if v is root_param) == 1) and \
+        (not in_subgraph or (len(subgraphs) == 1 and not subgraphs[0].fields["initializers"]))
+    ctx.check("C18.nn.parameter.realized_exactly_once_in_the_root_graph", ok,
+              CL_NAME + " — also when another parameter elsewhere in the tree has the same attribute name")
     if not ok:
         return
-    init_name = term(list(inits.keys())[0])
+    init_name = term([k for k, v in inits.items() if v is param][0])
     sd = I.call(I.getattr(root, "state_dict"), [])
-    ok = isinstance(sd, dict) and len(sd) == 1
+    ok = isinstance(sd, dict) and len(sd) == n_params
     ctx.check("C18.nn.state_dict.one_key_per_parameter", ok, CL_NAME)
     if not ok:
         return
-    key = term(list(sd.keys())[0])
-    goal = init_name == z3.Concat(r, z3.StringVal("."), key)
+    prefix = z3.Concat(r, z3.StringVal(".")) if root_named else z3.StringVal("")
+    if root_param is not None:
+        rp_name = term([k for k, v in inits.items() if v is root_param][0])
+        ctx.check("C18.nn.root_parameter_name_is_root_name_dot_attribute", rp_name == z3.Concat(prefix, p), CL_NAME)
+    key = term([k for k, v in sd.items() if v is param.fields["const_value"]][0])
+    goal = init_name == z3.Concat(prefix, key)
     if explicit_child or explicit_param:
         ctx.check("C18.nn.initializer_name_is_root_name_dot_state_dict_key.with_explicit_names", goal, CL_NAME)
     else:
@@ -332,3 +347,82 @@ SCENARIOS.append(Scenario("C18.nn.module_list_naming", s_module_list_naming,
                           [("onnxscript/nn/_module_list.py", "ModuleList.__init__"), ("onnxscript/nn/_module_list.py", "ModuleList._register_child"),
                            ("onnxscript/nn/_module_list.py", "ModuleList._set_name"), ("onnxscript/nn/_module_list.py", "ModuleList.append")],
                           assumptions=["tree shapes: root -> ModuleList -> leaf and root -> ModuleList -> ModuleList -> leaf, four population orders; names symbolic"]))
+
+
+def s_builder_call(ctx):
+    """GraphBuilder.call(function, ...): ONE node is added whose (domain, op_type, overload) is the identifier under
+    which the function is registered in the root builder — otherwise the call refers to a function the model lacks."""
+    import onnx_ir as ir
+    b = _b()
+    I = Interp(ctx)
+    dom, nm, ov = z3.String("fn_domain"), z3.String("fn_name"), z3.String("fn_overload")
+    for k, t in (("fn_domain", dom), ("fn_name", nm), ("fn_overload", ov)):
+        ctx.witness[k] = t
+    fn = SObj(ir.Function, "function")
+    g = SObj(ir.Graph, "fn_graph")
+    n_out = 1 + ctx.choose(2, "function outputs")
+    g.fields["outputs"] = [Opaque(f"fo{i}") for i in range(n_out)]
+
+    def ident():
+        raise AssertionError
+    I.models[ident] = lambda interp: (SStr(dom), SStr(nm), SStr(ov))
+    fn.fields.update(name=SStr(nm), domain=SStr(dom), overload=SStr(ov), graph=g, identifier=ident)
+    graph = SObj(object, "graph")
+
+    def num_nodes():
+        raise AssertionError
+    I.models[num_nodes] = lambda interp: 3
+    graph.fields["num_nodes"] = num_nodes
+    gb = new_builder(I, (), graph)
+    gb.fields["_functions"] = {}
+    G = b.GraphBuilder
+    outs = [SObj(ir.Value, f"out{i}") for i in range(n_out)]
+    I.models[G._adapt_outputs] = lambda interp, slf, outputs, op_type="": list(outs)
+    I.models[G._input_to_ir_value] = lambda interp, slf, v, *a: ("adapted", v)
+    I.models[G._build_namespace] = lambda interp, slf: "ns"
+    I.models[G._scope_classes] = lambda interp, slf: []
+    I.models[G._scope_names] = lambda interp, slf: []
+    nodes = []
+
+    def mk_node(domain, op_type, overload, inputs, outputs):
+        n = SObj(ir.Node, "callnode")
+        n.fields.update(domain=domain, op_type=op_type, overload=overload, inputs=list(inputs), outputs=list(outputs), metadata_props={})
+        return n
+    I.models[ir.node] = lambda interp, op_type=None, inputs=(), attributes=None, outputs=None, domain="", name=None, overload="", **k: \
+        mk_node(domain, op_type, overload, inputs, outputs or [])
+    added = []
+    I.models[G.add_node] = lambda interp, slf, n: added.append(n)
+
+    def m_call_op(interp, slf, op_type, args, kwargs, domain="", version=None, outputs=1, **k):
+        # BuilderBase.call_op has no overload parameter: a node it creates has the empty overload
+        n = mk_node(domain, op_type, "", [("adapted", a) for a in args], outs)
+        added.append(n)
+        return outs[0] if len(outs) == 1 else tuple(outs)
+    I.models[G.call_op] = m_call_op
+    x = Opaque("x")
+    try:
+        r = I.run_closure(I.closure_of(G.call), [gb, fn, x], {})
+    except PyRaise as e:
+        ctx.check("C18.builder.call.returns_normally", False, CL_UNIQ)
+        return
+    ok = len(added) == 1
+    ctx.check("C18.builder.call.adds_exactly_one_node", ok, "C18: 'computes exactly the sequence of operator calls that was traced'")
+    if not ok:
+        return
+    n = added[0]
+    reg = gb.fields["_functions"]
+    keys = list(reg.keys())
+    okr = len(keys) == 1 and reg[keys[0]] is fn
+    ctx.check("C18.builder.call.function_registered_once_in_the_root_builder", okr, "C18: 'functions called as nodes' — the model must carry the function")
+    if okr:
+        kd, kn, ko = keys[0]
+        ctx.check("C18.builder.call.node_refers_to_the_function_by_domain_name_and_overload",
+                  z3.And(term(n.fields["domain"]) == term(kd), term(n.fields["op_type"]) == term(kn), term(n.fields["overload"]) == term(ko)),
+                  "C18: 'is a valid model' — a call node must name a function that is in the model (overloads included)")
+    ctx.check("C18.builder.call.inputs_are_the_adapted_arguments", n.fields["inputs"] == [("adapted", x)], "C18")
+    ctx.check("C18.builder.call.returns_the_node_outputs", (r is outs[0]) if n_out == 1 else (list(r) == outs), "C18")
+
+
+SCENARIOS.append(Scenario("C18.builder.call", s_builder_call, F(GB + "call"),
+                          trusted=["ir.node(...) creates a node with the given domain / op_type / overload / inputs / outputs (onnx_ir)",
+                                   "BuilderBase.call_op cannot set an overload (it has no such parameter)"]))
